@@ -157,6 +157,8 @@ def run_for(pid, root, rep, seed=0, jobs=16):
         variants.append(swap_independent(module, fn, seed % 3))
     for (module, fn) in fns[:5]:
         variants.append(extract_temp(module, fn, seed % 4))
+    for (module, fn) in fns[:5]:
+        variants.append(api_synonym(module, fn, seed % 5))
     if not variants:
         rep.selftest = {'variants': 0}
         return
